@@ -108,6 +108,9 @@ def Quiet (t : List TapeEv) : Prop := ∀ e ∈ t, e.quiet = true
 /-- a tape of non-empty chunks only -/
 def FaultFree (t : List TapeEv) : Prop := ∀ e ∈ t, e.isData = true
 
+instance (t : List TapeEv) : Decidable (Quiet t) := by unfold Quiet; infer_instance
+instance (t : List TapeEv) : Decidable (FaultFree t) := by unfold FaultFree; infer_instance
+
 theorem tapeOk_nil : TapeOk [] := by intro bs h; cases h
 
 theorem tapeOk_cons (e : TapeEv) (t : List TapeEv) :
@@ -857,6 +860,8 @@ structure SameStream (n n' : Net) : Prop where
 
 /-- the same trace once the lines of the individual recv calls are deleted -/
 def SameTrace (n n' : Net) : Prop := dropRecv n.trace = dropRecv n'.trace
+
+instance (n n' : Net) : Decidable (SameTrace n n') := by unfold SameTrace; infer_instance
 
 /-- working form of `SameStream ∧ SameTrace` -/
 structure Sim (n n' : Net) : Prop where
@@ -1791,37 +1796,303 @@ theorem applyFail_sim {n n' : Net} (h : Sim n n') (undone : Bool) (c : Conn) (t 
   obtain ⟨e1, e2⟩ := changeState_proj h c (if undone = true then t else t.purge).own .errFatal
   exact ⟨rfl, rfl, e1, rfl, e2⟩
 
+/-- `applyTables` after the shadow tables are set up -/
+def applyTablesBody (c : Conn) (n : Net) (t : Tbl) (v4 v6 keys : List (List Nat)) : ApplyRes :=
+  match applyPfx c n t v4 [] with
+  | (ok4, c, n, t, done4) =>
+  if !ok4 then
+    match undoAllPfx t done4 with | (undone, t) => applyFail undone c n t
+  else
+    match applyPfx c n t v6 [] with
+    | (ok6, c, n, t, done6) =>
+    if !ok6 then
+      match undoAllPfx t v4 with
+      | (un4, t) =>
+        match (if un4 then undoAllPfx t done6 else (false, t)) with
+        | (un6, t) => applyFail (un4 && un6) c n t
+    else
+      match applyKey c n t keys [] with
+      | (okk, c, n, t, donek) =>
+      if !okk then
+        match undoAllPfx t v4 with
+        | (un4, t) =>
+          match (if un4 then undoAllPfx t v6 else (false, t)) with
+          | (un6, t) =>
+            match (if un4 && un6 then undoAllKey t donek else (false, t)) with
+            | (unk, t) => applyFail (un4 && un6 && unk) c n t
+      else { ok := true, purged := false, c := c, n := n, t := t.swapIn }
+
+theorem applyTables_eq (c : Conn) (n : Net) (t : Tbl) (resetting : Bool) (v4 v6 keys : List (List Nat)) :
+    applyTables c n t resetting v4 v6 keys =
+      applyTablesBody c n (if resetting then { t with shadow := some ⟨ptSrcRemove t.pt 0, ktSrcRemove t.kt 0⟩ } else t)
+        v4 v6 keys := by
+  unfold applyTables applyTablesBody
+  rfl
+
 theorem applyTables_sim {n n' : Net} (h : Sim n n') (c : Conn) (t : Tbl) (resetting : Bool)
     (v4 v6 keys : List (List Nat)) :
     SimRes (applyTables c n t resetting v4 v6 keys) (applyTables c n' t resetting v4 v6 keys) := by
-  unfold applyTables
-  simp only
+  rw [applyTables_eq, applyTables_eq]
   generalize (if resetting = true then ({ t with shadow := some ⟨ptSrcRemove t.pt 0, ktSrcRemove t.kt 0⟩ } : Tbl)
     else t) = t0
+  unfold applyTablesBody
   obtain ⟨a1, a2, a3, a4⟩ := applyPfx_proj v4 h c t0 []
-  rw [← a1, ← a2, ← a4]
-  by_cases ok4 : (applyPfx c n t0 v4 []).1 = true
-  · simp only [ok4, Bool.not_true, Bool.false_eq_true, if_false]
-    obtain ⟨b1, b2, b3, b4⟩ := applyPfx_proj v6 a3 (applyPfx c n t0 v4 []).2.1 (applyPfx c n t0 v4 []).2.2.2.1 []
-    rw [← b1, ← b2, ← b4]
-    by_cases ok6 : (applyPfx (applyPfx c n t0 v4 []).2.1 (applyPfx c n t0 v4 []).2.2.1
-        (applyPfx c n t0 v4 []).2.2.2.1 v6 []).1 = true
-    · simp only [ok6, Bool.not_true, Bool.false_eq_true, if_false]
-      obtain ⟨k1, k2, k3, k4⟩ := applyKey_proj keys b3
-        (applyPfx (applyPfx c n t0 v4 []).2.1 (applyPfx c n t0 v4 []).2.2.1
-          (applyPfx c n t0 v4 []).2.2.2.1 v6 []).2.1
-        (applyPfx (applyPfx c n t0 v4 []).2.1 (applyPfx c n t0 v4 []).2.2.1
-          (applyPfx c n t0 v4 []).2.2.2.1 v6 []).2.2.2.1 []
-      rw [← k1, ← k2, ← k4]
-      split
-      · exact applyFail_sim k3 _ _ _
-      · exact ⟨rfl, rfl, rfl, rfl, k3⟩
-    · have : (applyPfx (applyPfx c n t0 v4 []).2.1 (applyPfx c n t0 v4 []).2.2.1
-        (applyPfx c n t0 v4 []).2.2.2.1 v6 []).1 = false := by simpa using ok6
-      simp only [this, Bool.not_false, if_true]
-      exact applyFail_sim b3 _ _ _
-  · have : (applyPfx c n t0 v4 []).1 = false := by simpa using ok4
-    simp only [this, Bool.not_false, if_true]
+  rcases e4 : applyPfx c n t0 v4 [] with ⟨ok4, c4, n4, t4, d4⟩
+  rcases e4' : applyPfx c n' t0 v4 [] with ⟨ok4', c4', n4', t4', d4'⟩
+  rw [e4, e4'] at a1 a2 a3 a4
+  simp only [Prod.mk.injEq] at a1 a2 a3 a4
+  obtain ⟨rfl, rfl⟩ := a4
+  subst a1 a2
+  simp only
+  cases ok4 with
+  | false =>
+    simp only [Bool.not_false, if_true]
     exact applyFail_sim a3 _ _ _
+  | true =>
+    simp only [Bool.not_true, Bool.false_eq_true, if_false]
+    obtain ⟨b1, b2, b3, b4⟩ := applyPfx_proj v6 a3 c4 t4 []
+    rcases e6 : applyPfx c4 n4 t4 v6 [] with ⟨ok6, c6, n6, t6, d6⟩
+    rcases e6' : applyPfx c4 n4' t4 v6 [] with ⟨ok6', c6', n6', t6', d6'⟩
+    rw [e6, e6'] at b1 b2 b3 b4
+    simp only [Prod.mk.injEq] at b1 b2 b3 b4
+    obtain ⟨rfl, rfl⟩ := b4
+    subst b1 b2
+    simp only
+    cases ok6 with
+    | false =>
+      simp only [Bool.not_false, if_true]
+      exact applyFail_sim b3 _ _ _
+    | true =>
+      simp only [Bool.not_true, Bool.false_eq_true, if_false]
+      obtain ⟨k1, k2, k3, k4⟩ := applyKey_proj keys b3 c6 t6 []
+      rcases ek : applyKey c6 n6 t6 keys [] with ⟨okk, ck, nk, tk, dk⟩
+      rcases ek' : applyKey c6 n6' t6 keys [] with ⟨okk', ck', nk', tk', dk'⟩
+      rw [ek, ek'] at k1 k2 k3 k4
+      simp only [Prod.mk.injEq] at k1 k2 k3 k4
+      obtain ⟨rfl, rfl⟩ := k4
+      subst k1 k2
+      simp only
+      cases okk with
+      | false =>
+        simp only [Bool.not_false, if_true]
+        exact applyFail_sim k3 _ _ _
+      | true =>
+        simp only [Bool.not_true, Bool.false_eq_true, if_false]
+        exact ⟨rfl, rfl, rfl, rfl, k3⟩
+
+/-- two socket states that differ only in the chunking of the input still to be read (and in the
+    lines of the individual recv calls in the trace) -/
+structure SimSt (st st' : St) : Prop where
+  c : st.c = st'.c
+  ss : st.ss = st'.ss
+  tm : st.tm = st'.tm
+  t : st.t = st'.t
+  n : Sim st.n st'.n
+
+theorem SimSt.eq_with {st st' : St} (h : SimSt st st') : st' = { st with n := st'.n } := by
+  cases st; cases st'
+  obtain ⟨h1, h2, h3, h4, _⟩ := h
+  simp only at h1 h2 h3 h4
+  subst h1 h2 h3 h4
+  rfl
+
+theorem applyBuffered_sim (st : St) (n' : Net) (h : Sim st.n n') (eod : List Nat) (v4 v6 keys : List (List Nat)) :
+    (applyBuffered st eod v4 v6 keys).1 = (applyBuffered { st with n := n' } eod v4 v6 keys).1 ∧
+    SimSt (applyBuffered st eod v4 v6 keys).2 (applyBuffered { st with n := n' } eod v4 v6 keys).2 := by
+  unfold applyBuffered
+  simp only
+  obtain ⟨r1, r2, r3, r4, r5⟩ := applyTables_sim h st.c st.t st.ss.isResetting v4 v6 keys
+  rw [← r1, ← r2, ← r3, ← r4]
+  exact ⟨rfl, ⟨rfl, rfl, rfl, rfl, r5⟩⟩
+
+/-- two results (flag, state, ghost output) that differ only in the chunking -/
+structure SimOut {γ : Type} (r r' : Bool × St × γ) : Prop where
+  ok : r.1 = r'.1
+  st : SimSt r.2.1 r'.2.1
+  ghost : r.2.2 = r'.2.2
+
+theorem cleanup_sim {γ : Type} (r r' : Bool × St) (g : γ) (hok : r.1 = r'.1) (h : SimSt r.2 r'.2) :
+    SimOut ((cleanup r).1, (cleanup r).2, g) ((cleanup r').1, (cleanup r').2, g) := by
+  obtain ⟨h1, h2, h3, h4, h5⟩ := h
+  unfold cleanup
+  simp only
+  rw [h1, h2, h3, h4, hok]
+  exact ⟨rfl, ⟨rfl, rfl, rfl, rfl, h5⟩, rfl⟩
+
+theorem recvAndStore_sim : ∀ (fuel : Nat) (st : St) (n' : Net), Sim st.n n' → ∀ (v4 v6 keys : List (List Nat)),
+    SimOut (recvAndStore fuel st v4 v6 keys) (recvAndStore fuel { st with n := n' } v4 v6 keys) := by
+  intro fuel
+  induction fuel with
+  | zero =>
+    intro st n' h v4 v6 keys
+    exact ⟨rfl, ⟨rfl, rfl, rfl, rfl, h⟩, rfl⟩
+  | succ fuel ih =>
+    intro st n' h v4 v6 keys
+    unfold recvAndStore
+    obtain ⟨p1, p2, p3⟩ := receivePdu_proj h st.c st.t.own Gen.RTR_RECV_TIMEOUT
+    rcases e : receivePdu st.c st.n st.t.own Gen.RTR_RECV_TIMEOUT with ⟨res, c1, n1⟩
+    rcases e' : receivePdu st.c n' st.t.own Gen.RTR_RECV_TIMEOUT with ⟨res', c1', n1'⟩
+    rw [e, e'] at p1 p2 p3
+    simp only at p1 p2 p3
+    subst p1 p2
+    cases res with
+    | rc code =>
+      simp only
+      by_cases hc : code = -2
+      · simp only [if_pos hc]
+        obtain ⟨q1, q2⟩ := changeState_proj p3 c1 st.t.own .errTransport
+        exact cleanup_sim (false, _) (false, _) _ rfl ⟨q1, rfl, rfl, rfl, q2⟩
+      · simp only [if_neg hc]
+        exact cleanup_sim (false, _) (false, _) _ rfl ⟨rfl, rfl, rfl, rfl, p3⟩
+    | ok raw =>
+      simp only
+      split
+      · exact ih _ _ p3 _ _ _
+      · exact ih _ _ p3 _ _ _
+      · exact ih _ _ p3 _ _ _
+      · by_cases hs : be16 raw 2 ≠ st.ss.session
+        · simp only [if_pos hs]
+          obtain ⟨q1, q2⟩ := errThenFatal_proj p3 c1 st.t.own raw raw.length 0
+            (txtEodSession st.ss.session (be16 raw 2))
+          exact cleanup_sim (false, _) (false, _) _ rfl ⟨q1, rfl, rfl, rfl, q2⟩
+        · simp only [if_neg hs]
+          obtain ⟨q1, q2⟩ := applyBuffered_sim { st with c := c1, n := n1 } n1' p3 raw v4 v6 keys
+          exact cleanup_sim _ _ _ q1 q2
+      · obtain ⟨q1, q2⟩ := handleErrorPdu_proj p3 c1 st.t.own raw
+        exact cleanup_sim (false, _) (false, _) _ rfl ⟨q1, rfl, rfl, rfl, q2⟩
+      · exact ih _ _ p3 _ _ _
+      · obtain ⟨_, q2⟩ := sendErrorFromHost_proj p3 c1 raw 8 0 txtUnexpectedSync
+        exact cleanup_sim (false, _) (false, _) _ rfl ⟨rfl, rfl, rfl, rfl, q2⟩
+
+theorem syncFirst_sim : ∀ (fuel : Nat) (st : St) (n' : Net), Sim st.n n' →
+    (syncFirst fuel st).1 = (syncFirst fuel { st with n := n' }).1 ∧
+    SimSt (syncFirst fuel st).2 (syncFirst fuel { st with n := n' }).2 := by
+  intro fuel
+  induction fuel with
+  | zero => intro st n' h; exact ⟨rfl, ⟨rfl, rfl, rfl, rfl, h⟩⟩
+  | succ fuel ih =>
+    intro st n' h
+    unfold syncFirst
+    obtain ⟨p1, p2, p3⟩ := receivePdu_proj h st.c st.t.own Gen.RTR_RECV_TIMEOUT
+    rcases e : receivePdu st.c st.n st.t.own Gen.RTR_RECV_TIMEOUT with ⟨res, c1, n1⟩
+    rcases e' : receivePdu st.c n' st.t.own Gen.RTR_RECV_TIMEOUT with ⟨res', c1', n1'⟩
+    rw [e, e'] at p1 p2 p3
+    simp only at p1 p2 p3
+    subst p1 p2
+    cases res with
+    | rc code =>
+      simp only
+      by_cases h1 : code = -4 ∧ st.ss.reqSession = true ∧ c1.version > Gen.RTR_PROTOCOL_MIN_SUPPORTED_VERSION
+      · simp only [if_pos h1]
+        obtain ⟨q1, q2⟩ := changeState_proj p3 { c1 with version := c1.version - 1 } st.t.own .fastReconnect
+        exact ⟨trivial, ⟨q1, rfl, rfl, rfl, q2⟩⟩
+      · simp only [if_neg h1]
+        by_cases h2 : code = -2
+        · simp only [if_pos h2]
+          obtain ⟨q1, q2⟩ := changeState_proj p3 c1 st.t.own .errTransport
+          exact ⟨trivial, ⟨q1, rfl, rfl, rfl, q2⟩⟩
+        · simp only [if_neg h2]
+          exact ⟨trivial, ⟨rfl, rfl, rfl, rfl, p3⟩⟩
+    | ok raw =>
+      simp only
+      by_cases h1 : typeOf raw = 0
+      · simp only [if_pos h1]
+        exact ih _ _ p3
+      · simp only [if_neg h1]
+        exact ⟨trivial, ⟨rfl, rfl, rfl, rfl, p3⟩⟩
+
+theorem syncG_sim (fuel : Nat) (st : St) (n' : Net) (h : Sim st.n n') :
+    SimOut (syncG fuel st) (syncG fuel { st with n := n' }) := by
+  unfold syncG
+  obtain ⟨p1, p2⟩ := syncFirst_sim fuel st n' h
+  rcases e : syncFirst fuel st with ⟨r, st1⟩
+  rcases e' : syncFirst fuel { st with n := n' } with ⟨r', st1'⟩
+  rw [e, e'] at p1 p2
+  simp only at p1 p2
+  subst p1
+  have hst := p2.eq_with
+  have hn := p2.n
+  generalize st1'.n = m' at hst hn
+  subst hst
+  cases r with
+  | none => exact ⟨rfl, ⟨rfl, rfl, rfl, rfl, hn⟩, rfl⟩
+  | some raw =>
+    simp only
+    split
+    · obtain ⟨q1, q2⟩ := handleErrorPdu_proj hn st1.c st1.t.own raw
+      exact ⟨rfl, ⟨q1, rfl, rfl, rfl, q2⟩, rfl⟩
+    · obtain ⟨q1, q2⟩ := changeState_proj hn st1.c st1.t.own .errNoIncr
+      exact ⟨rfl, ⟨q1, rfl, rfl, rfl, q2⟩, rfl⟩
+    · obtain ⟨q1, q2, q3, q4⟩ := handleCacheResponse_proj hn st1.c st1.ss st1.t.own raw
+      rcases f : handleCacheResponse st1.c st1.ss st1.n st1.t.own raw with ⟨ok, c2, ss2, n2⟩
+      rcases f' : handleCacheResponse st1.c st1.ss m' st1.t.own raw with ⟨ok', c2', ss2', n2'⟩
+      rw [f, f'] at q1 q2 q3 q4
+      simp only at q1 q2 q3 q4
+      subst q1 q2 q3
+      simp only
+      cases ok with
+      | false => exact ⟨rfl, ⟨rfl, rfl, rfl, rfl, q4⟩, rfl⟩
+      | true =>
+        simp only [Bool.not_true, Bool.false_eq_true, if_false]
+        obtain ⟨s1, s2, s3⟩ := recvAndStore_sim fuel { st1 with c := c2, ss := ss2, n := n2 } n2' q4 [] [] []
+        rcases g : recvAndStore fuel { st1 with c := c2, ss := ss2, n := n2 } [] [] [] with ⟨ok3, st3, b3⟩
+        rcases g' : recvAndStore fuel { st1 with c := c2, ss := ss2, n := n2' } [] [] [] with ⟨ok3', st3', b3'⟩
+        rw [g, g'] at s1 s2 s3
+        simp only at s1 s2 s3
+        subst s1 s3
+        simp only
+        cases ok3 with
+        | false => exact ⟨rfl, s2, rfl⟩
+        | true =>
+          simp only [Bool.not_true, Bool.false_eq_true, if_false]
+          obtain ⟨t1, t2, t3, t4, t5⟩ := s2
+          refine ⟨rfl, ⟨t1, ?_, t3, t4, t5⟩, rfl⟩
+          simp only
+          rw [t2, t5.now]
+    · obtain ⟨_, q2⟩ := sendErrorFromHost_proj hn st1.c raw 8 0 txtUnexpectedSync2
+      exact ⟨rfl, ⟨rfl, rfl, rfl, rfl, q2⟩, rfl⟩
+
+theorem waitForSync_sim (st : St) (n' : Net) (h : Sim st.n n') :
+    (waitForSync st).1 = (waitForSync { st with n := n' }).1 ∧
+    SimSt (waitForSync st).2 (waitForSync { st with n := n' }).2 := by
+  unfold waitForSync
+  simp only
+  rw [← h.now]
+  generalize (if st.ss.lastUpdate + ↑st.tm.refresh - st.n.now < 0 then (0 : Int)
+    else st.ss.lastUpdate + ↑st.tm.refresh - st.n.now) = w
+  obtain ⟨p1, p2, p3⟩ := receivePdu_proj h st.c st.t.own w
+  rcases e : receivePdu st.c st.n st.t.own w with ⟨res, c1, n1⟩
+  rcases e' : receivePdu st.c n' st.t.own w with ⟨res', c1', n1'⟩
+  rw [e, e'] at p1 p2 p3
+  simp only at p1 p2 p3
+  subst p1 p2
+  cases res <;> exact ⟨rfl, ⟨rfl, rfl, rfl, rfl, p3⟩⟩
+
+/-! ## decidable checks for concrete tapes -/
+
+def tapeOkB : List TapeEv → Bool
+  | [] => true
+  | .rx bs :: t => !bs.isEmpty && tapeOkB t
+  | _ :: t => tapeOkB t
+
+theorem tapeOk_of_tapeOkB : ∀ (t : List TapeEv), tapeOkB t = true → TapeOk t := by
+  intro t
+  induction t with
+  | nil => intro _; exact tapeOk_nil
+  | cons e t ih =>
+    intro h
+    rw [tapeOk_cons]
+    cases e with
+    | rx bs =>
+      simp only [tapeOkB, Bool.and_eq_true, Bool.not_eq_true', List.isEmpty_eq_false_iff] at h
+      refine ⟨?_, ih h.2⟩
+      intro bs' hb
+      cases hb
+      exact h.1
+    | dt d => exact ⟨fun _ hb => (by cases hb), ih h⟩
+    | err => exact ⟨fun _ hb => (by cases hb), ih h⟩
+    | block => exact ⟨fun _ hb => (by cases hb), ih h⟩
+    | intr => exact ⟨fun _ hb => (by cases hb), ih h⟩
+    | closed => exact ⟨fun _ hb => (by cases hb), ih h⟩
 
 end Rtr.P
